@@ -135,6 +135,13 @@ package transaction
 //@   nosafety
 //@   modifies *
 //@   ensures [json_id] err == nil && !raw ==> typeof(r) == typeid(ptr_transactionV3) && as(ptr_transactionV3, r) != nil && seq(as(ptr_transactionV3, r).txHash) == jsmap_hash(ref(jsm))
+// version 2: the id a parsed transaction carries is always the hash computed from its JSON map (the
+// tx_hash field the JSON itself claims is only compared with it later, never trusted)
+//@ func parseV2(js, jsm, raw) (r, err)
+//@   arith int
+//@   nosafety
+//@   modifies *
+//@   ensures [json_id] err == nil ==> typeof(r) == typeid(ptr_transactionV2) && as(ptr_transactionV2, r) != nil && seq(as(ptr_transactionV2, r).txHash) == jsmap_hash(ref(jsm))
 
 // ---------------------------------------------------------------------------
 // C37: pre-validation of a v3 transaction against the ghost ledger: accepted only if the sender can
